@@ -1,5 +1,5 @@
-(** C09 — the hypotheses of the [estimate] theorems hold for the executable instantiation (non-vacuity), and the faithful
-    model multiplies rows on a repeated (ID, TIME) pair (finding F8). *)
+(** C09 — the hypotheses of the [estimate] theorems hold for the executable instantiation (non-vacuity), with concrete
+    requests: repeated (ID, TIME) pairs, interleaved individuals, unsorted ages, a unique age in a dict request. *)
 From Coq Require Import List Bool String QArith ZArith.
 From Leaspy Require Import Io.Estimate Io.EstimateProofs Io.EstimateExec.
 Import ListNotations.
@@ -15,36 +15,50 @@ Proof.
   - intros H. injection H. auto.
 Qed.
 
-(** the general theorem, instantiated: hypotheses discharged *)
-Lemma estimate_tag_index ix : NoDup ix ->
+(** the full theorem, instantiated: hypotheses discharged, no condition on the request left *)
+Lemma estimate_tag_index ix :
   estimate_tag (InIndex ix) None = OutFrame (map (fun k => (fst k, snd k, Some (tag (fst k) (snd k)))) ix).
 Proof.
-  intros H. unfold estimate_tag.
-  apply (estimate_index string Q (string * Q) String.eqb String.leb Qeqb string_eqb_spec' Qeqb_spec tag ix None);
-    [now left | assumption].
+  unfold estimate_tag.
+  apply (estimate_index string Q (string * Q) String.eqb String.leb Qeqb string_eqb_spec' Qeqb_spec tag ix None).
+  now left.
 Qed.
 
-(** non-vacuity: an unsorted request over two individuals, no repeated pair, comes back as requested *)
+(** non-vacuity, computed: the request with a repeated pair (4 rows: b, a, b, b — b's ages 75, 71, 75 unsorted) comes
+    back as its 4 rows, in the requested order *)
 Example estimate_index_example :
-  let ix := [("b"%string, 75 # 1); ("a"%string, 70 # 1); ("b"%string, 71 # 1)] in
-  NoDup ix /\
-  estimate_tag (InIndex ix) None = OutFrame (map (fun k => (fst k, snd k, Some (tag (fst k) (snd k)))) ix).
+  ~ NoDup f8_request /\
+  estimate_tag (InIndex f8_request) None =
+  OutFrame [("b"%string, 75 # 1, Some ("b"%string, 75 # 1)); ("a"%string, 70 # 1, Some ("a"%string, 70 # 1));
+            ("b"%string, 71 # 1, Some ("b"%string, 71 # 1)); ("b"%string, 75 # 1, Some ("b"%string, 75 # 1))].
 Proof.
   split; [|vm_compute; reflexivity].
-  repeat constructor; simpl; intuition congruence.
+  intros H. inversion H as [|x l Hx _]. apply Hx. right. right. now left.
 Qed.
 
-Lemma f8_refuted :
-  exists (ix : index string Q) rows,
-    estimate_tag (InIndex ix) None = OutFrame rows /\ List.length ix = 4%nat /\ List.length rows = 6%nat.
-Proof.
-  exists f8_request. eexists. split; [vm_compute; reflexivity|]. split; reflexivity.
-Qed.
+(** individuals alternating, index sorted by TIME across individuals, a pair repeated non-adjacently *)
+Example estimate_index_interleaved_example :
+  let ix := [("b"%string, 70 # 1); ("a"%string, 71 # 1); ("b"%string, 72 # 1); ("a"%string, 73 # 1);
+             ("b"%string, 70 # 1); ("a"%string, 141 # 2)] in
+  estimate_tag (InIndex ix) (Some true) = OutFrame (map (fun k => (fst k, snd k, Some (tag (fst k) (snd k)))) ix).
+Proof. vm_compute. reflexivity. Qed.
 
-(** hence the statement "a MultiIndex request returns exactly the requested rows" is false on the model of the code *)
-Lemma estimate_index_refuted :
-  ~ (forall ix : index string Q,
-       estimate_tag (InIndex ix) None = OutFrame (map (fun k => (fst k, snd k, Some (tag (fst k) (snd k)))) ix)).
-Proof.
-  intros H. specialize (H f8_request). vm_compute in H. discriminate H.
-Qed.
+(** the de-duplication is what makes it hold: the requested index joined with the concatenated frame itself (the code
+    before the repair) has 6 rows for this request *)
+Example join_without_first_rows_example :
+  forall fr, frame string Q (string * Q) (fun i a => map (tag i) (atleast_1d Q a))
+                   (group string Q String.eqb String.leb f8_request) = Some fr ->
+  List.length (join string Q (string * Q) String.eqb Qeqb f8_request fr) = 6%nat /\
+  List.length (join string Q (string * Q) String.eqb Qeqb f8_request (first_rows string Q (string * Q) String.eqb Qeqb [] fr)) = 4%nat.
+Proof. intros fr H. vm_compute in H. injection H as <-. split; vm_compute; reflexivity. Qed.
+
+(** a dict request with a unique age, a list of ages (unsorted, one repeated) and no age *)
+Example estimate_dict_example :
+  let req := [("b"%string, One (75 # 1)); ("a"%string, Many [72 # 1; 70 # 1; 72 # 1]); ("c"%string, Many [])] in
+  estimate_tag (InDict req) (Some true) =
+    OutFrame [("b"%string, 75 # 1, Some ("b"%string, 75 # 1)); ("a"%string, 72 # 1, Some ("a"%string, 72 # 1));
+              ("a"%string, 70 # 1, Some ("a"%string, 70 # 1)); ("a"%string, 72 # 1, Some ("a"%string, 72 # 1))]
+  /\ estimate_tag (InDict req) None =
+    OutDict [("b"%string, [("b"%string, 75 # 1)]);
+             ("a"%string, [("a"%string, 72 # 1); ("a"%string, 70 # 1); ("a"%string, 72 # 1)]); ("c"%string, [])].
+Proof. split; vm_compute; reflexivity. Qed.
